@@ -237,6 +237,7 @@ class C20Lemma(LemmaUnit):
                [L == z3.Concat(child, z3.Unit(NONE)), z3.Concat(taken, z3.Unit(NONE)) == L], taken == child)
 
 
-UNITS = [RunLogger, CollectResult, ChildRunLogging, ProcessRunNoTarget, StartUnit, C20Lemma]
+from contracts.c12 import ProcInit, ProcInitNone       # noqa: E402
+UNITS = [ProcInit, ProcInitNone, RunLogger, CollectResult, ChildRunLogging, ProcessRunNoTarget, StartUnit, C20Lemma]
 SCENARIOS = [('', 'replay/scenarios/c20_child_logs.py', (50, 2000)), ('', 'replay/scenarios/c20_child_logs.py', (3000, 200)), ('', 'replay/scenarios/c20_child_logs.py', (0, 1))]
 THOROUGH_SCENARIOS = [('', 'replay/scenarios/c20_child_logs.py', (20000, 100), 300), ('', 'replay/scenarios/c20_child_logs.py', (100, 100000), 300)]
